@@ -245,11 +245,14 @@ struct AssocM {
     last_activity_d25: u64,
     /// created while a task of a removed association with the same address was still running
     tainted: bool,
+    /// the last (at most 8) application sequence numbers used with this outstation: requests sent and
+    /// fragments of a read series accepted (C15: a stale fragment must not match the next request)
+    used_seqs: VecDeque<u8>,
 }
 
 impl AssocM {
     fn new(cfg: ACfgM, now: u64) -> AssocM {
-        let mut a = AssocM { cfg, pending: BTreeSet::new(), integrity_done: false, queue: VecDeque::new(), polls: Vec::new(), last_unsol: None, backoff: HashMap::new(), last_activity: now, last_activity_d25: now, tainted: false };
+        let mut a = AssocM { cfg, pending: BTreeSet::new(), integrity_done: false, queue: VecDeque::new(), polls: Vec::new(), last_unsol: None, backoff: HashMap::new(), last_activity: now, last_activity_d25: now, tainted: false, used_seqs: VecDeque::new() };
         a.session_reset();
         a
     }
@@ -264,6 +267,10 @@ impl AssocM {
         self.queue.clear();
     }
     fn integrity_complete(&self) -> bool { self.cfg.int == 0 || self.integrity_done }
+    fn note_seq(&mut self, s: u8) {
+        self.used_seqs.push_back(s);
+        while self.used_seqs.len() > 8 { self.used_seqs.pop_front(); }
+    }
     /// the indications of a response the master acted on
     fn observe_iin(&mut self, iin1: u8, iin2: u8) {
         if iin1 & 0x80 != 0 && !self.pending.contains(&R_CLEAR) {
